@@ -2607,6 +2607,12 @@ class KmipEngine(object):
                         "Wrapping object attributes is not supported."
                     )
 
+                if encryption_key_params is None:
+                    raise exceptions.InvalidField(
+                        "The cryptographic parameters of the encryption key "
+                        "information must be specified for key wrapping."
+                    )
+
                 encoding_option = key_wrapping_spec.encoding_option
                 if encoding_option != enums.EncodingOption.NO_ENCODING:
                     raise exceptions.EncodingOptionError(
